@@ -523,7 +523,7 @@ Definition prm_wf (k : pdk) (g : group) (prm : pparams) : bool :=
   | (Sky130 | Gf180), GDiode => num_ok (pm_w prm) && num_ok (pm_l prm)
   | (Sky130 | Gf180), GBjt => true
   | (Sky130 | Gf180), _ => scalar_ok (pm_w prm) && scalar_ok (pm_l prm)
-  | Sample, _ => num_ok (pm_w prm) && num_ok (pm_l prm) && num_ok (pm_nf prm)
+  | Sample, _ => scalar_ok (pm_w prm) && scalar_ok (pm_l prm) && scalar_ok (pm_nf prm)
   | Asap7, _ => true
   end.
 
@@ -546,10 +546,10 @@ Qed.
 Lemma to_int_cases o : (exists v, to_int o = SOk v) \/ to_int o = SErr EBadParam.
 Proof. unfold to_int. destruct o as [[]|]; eauto. destruct ((0 <? d) && (n mod d =? 0)); eauto. Qed.
 
-Lemma positive_cases o a b : num_ok o = true ->
+Lemma positive_cases o a b : scalar_ok o = true ->
   positive (or_dflt o (PNum a b)) = SOk tt \/ positive (or_dflt o (PNum a b)) = SErr EBadParam.
 Proof.
-  destruct o as [[]|]; try discriminate; intros _; cbn [or_dflt positive];
+  destruct o as [[]|]; try discriminate; intros _; cbn [or_dflt positive]; auto;
     match goal with |- context[if ?c then _ else _] => destruct c end; auto.
 Qed.
 
